@@ -878,10 +878,11 @@ func (h *handler1) handleMqttSn(ctx context.Context, pkt snPkts.Packet) error {
 			}
 			h.pktBuffer = nil
 			m2 := snPkts1.NewDisconnect(0)
-			if err := h.snSend(m2); err != nil {
+			// The client is waiting for the reply: it must not be queued, even
+			// if the client is asleep already (it renews its sleep period).
+			if err := h.snSendNow(m2); err != nil {
 				return err
 			}
-			// Must be set after snSend otherwise the packet will be queued...
 			h.setState(util.StateAsleep)
 			return nil
 		}
@@ -965,6 +966,11 @@ func (h *handler1) snSend(pkt snPkts.Packet) error {
 		// TODO: Potentional serialization errors will be delayed!
 		return nil
 	}
+	return h.snSendNow(pkt)
+}
+
+// snSendNow sends the packet immediately, even to a sleeping client.
+func (h *handler1) snSendNow(pkt snPkts.Packet) error {
 	h.log.Debug("<- %v", pkt)
 	buf, err := pkt.Pack()
 	if err != nil {
